@@ -1214,6 +1214,40 @@ def roundtrip_check(fmt, objs):
     return check_text(inp)
 
 
+def string_api_check(fmt, obj, text):
+    """the string entry points `mdl_mol(text)` / `mdl_rxn(text)` on the block of ONE written record"""
+    from chython import ReactionContainer
+    from chython.files import mdl_mol, mdl_rxn
+    exp = expected_record(obj)
+    lines = text.splitlines(keepends=True)
+    try:
+        if isinstance(obj, ReactionContainer):
+            if fmt not in ('RDFWrite', 'ERDFWrite'):
+                return None
+            i = next(k for k, l in enumerate(lines) if l.startswith('$RXN'))
+            j = next((k for k, l in enumerate(lines) if l.startswith('$DTYPE')), len(lines))
+            got = mdl_rxn(''.join(lines[i:j]), calc_cis_trans=True)
+            g = _jsonish(obj_record(got))
+            g['meta'], e = {}, dict(exp, meta={})
+        else:
+            if fmt == 'MRVWrite':
+                return None
+            i = next((k + 1 for k, l in enumerate(lines) if l.startswith(('$MFMT',))), 0)
+            j = next(k for k, l in enumerate(lines) if l.startswith('M  END'))
+            got = mdl_mol(''.join(lines[i:j + 1]), calc_cis_trans=True)
+            g = _jsonish(obj_record(got))
+            g['meta'], e = {}, dict(exp, meta={})
+    except Exception as ex:
+        return (f'C11/string-api/{fmt}/crash/{type(ex).__name__}', f'mdl_mol/mdl_rxn on the written block raised {ex!r}',
+                {'kind': 'roundtrip-text', 'fmt': fmt, 'text': text, 'expect': [exp]})
+    d = diff_records(e, g)
+    if d:
+        return (f'C11/string-api/{fmt}/' + '+'.join(x.split('.')[-1] for x in d)[:80],
+                f'mdl_mol/mdl_rxn on the written block changed {d}', {'kind': 'string-api', 'fmt': fmt, 'text': text, 'expect': exp,
+                                                                      'reaction': isinstance(obj, ReactionContainer)})
+    return None
+
+
 def check_text(inp):
     """read the text back twice — with the reader's default options (cis/trans is then not derived, everything else must be
     preserved) and with calc_cis_trans=True (everything incl. cis/trans) — and compare with the expected records"""
@@ -1358,9 +1392,18 @@ def stream_roundtrip(ctx, mols, n):
             r = roundtrip_check(fmt, [o])
             if r:
                 ctx.fail(*r)
+            elif '\n' not in o.name:
+                r = string_api_check(fmt, o, write_text(fmt, [o]))
+                if r:
+                    ctx.fail(*r)
     for fmt in WRITERS:
         for _ in range(n):
             objs = make_objects(rng, mols, fmt, rng.choice([1, 1, 2, 3]))
+            if len(objs) == 1 and rng.random() < 0.5:
+                ctx.dist('RT:string-api:' + fmt)
+                r = string_api_check(fmt, objs[0], write_text(fmt, objs))
+                if r:
+                    ctx.fail(*r)
             ctx.count(('RT', fmt, tuple(str(o) for o in objs), tuple(tuple(sorted(o.meta.items())) for o in objs)))
             ctx.dist('RT:' + fmt)
             r = roundtrip_check(fmt, objs)
@@ -1516,6 +1559,21 @@ def probe(inp):
         r = damage_check(inp)
     elif kind == 'meta':
         r = meta_probe(inp)
+    elif kind == 'string-api':
+        from chython.files import mdl_mol, mdl_rxn
+        lines = inp['text'].splitlines(keepends=True)
+        if inp.get('reaction'):
+            i = next(k for k, l in enumerate(lines) if l.startswith('$RXN'))
+            j = next((k for k, l in enumerate(lines) if l.startswith('$DTYPE')), len(lines))
+            got = mdl_rxn(''.join(lines[i:j]), calc_cis_trans=True)
+        else:
+            i = next((k + 1 for k, l in enumerate(lines) if l.startswith('$MFMT')), 0)
+            j = next(k for k, l in enumerate(lines) if l.startswith('M  END'))
+            got = mdl_mol(''.join(lines[i:j + 1]), calc_cis_trans=True)
+        g = _jsonish(obj_record(got))
+        g['meta'] = {}
+        d = diff_records(dict(inp['expect'], meta={}), g)
+        r = (f"C11/string-api/{inp['fmt']}", f'fields changed: {d}', inp) if d else None
     elif kind == 'index-smiles':
         objs = _smiles_objs(inp)
         r = index_check(inp['fmt'], write_text(inp['fmt'], objs), '.sdf' if 'SDF' in inp['fmt'] else '.rdf')
